@@ -17,5 +17,7 @@ INVARIANT TerminatedOnce
 INVARIANT NoThreadAlive
 INVARIANT PlayRaisesAfterClose
 INVARIANT WaitsForAll
+INVARIANT SecondCloseIsNoOp
+INVARIANT StopIsPrompt
 PROPERTY CloseReturns
 CHECK_DEADLOCK FALSE
